@@ -336,12 +336,41 @@ def gen_family(ctx, drv, n, limit, mix):
             if not ok:
                 continue
             if shrunk:
+                if p["glb_size"] != "inf":
+                    # keep the buffer size tied to the (new) footprint: 1/8 … 1 of all tensors of one Einsum, so that capacity
+                    # binds sometimes and exactly-full mappings (usage = 1) occur
+                    wl = p["workload"]
+                    elems = (2 * wl["M"] * wl["KN"] + wl["KN"] ** 2) if wl["kind"] == "matmuls" else (wl["A"] * wl["C"] + wl["C"] * wl["B"] + wl["A"] * wl["B"])
+                    p["glb_size"] = max(ctx.rng.choice([1, 2, 3, 5, 8]) * elems * p["bits"] // 8, p["bits"] * 3)
                 desc = describe(p)   # authoritative: from the repo's front end
                 if [e["spec"]["bounds"] for e in desc["einsums"]] != [e["spec"]["bounds"] for e in trial["einsums"]]:
                     raise RuntimeError("bounds patched from params differ from the front end's")
             out.append((p, desc, size))
             break
     return out
+
+
+def family(ctx, drv, n, limit, mix):
+    """The specs of a run: `--replay file` → exactly the spec of that replay; otherwise the corpus of minimised past failures
+    (corpus/<id>/*.json, each {"replay": {"params": …}} or {"params": …}) followed by n seeded members."""
+    import json
+    from pathlib import Path
+    from harness.core import CORPUS_DIR
+
+    def entry(body):
+        rp = body.get("replay", body)
+        p = rp["params"]
+        desc = describe(p)
+        return (p, desc, space_size(drv, desc))
+
+    if ctx.replay:
+        return [entry(json.loads(Path(ctx.replay).read_text()))]
+    fam = []
+    d = CORPUS_DIR / ctx.pid
+    if d.is_dir():
+        for f in sorted(d.glob("*.json")):
+            fam.append(entry(json.loads(f.read_text())))
+    return fam + gen_family(ctx, drv, n, limit, mix)
 
 
 def mapper_work(job):
@@ -409,7 +438,7 @@ def merge_scans(desc, replies):
     """→ {"n", "valid", "best": {metric: (Fraction, witness)}, "rows": [[ints]] (union of the partial fronts), "scale": …}
     witness: ("single", mapping) or ("pair", half0, half1)."""
     D = desc["D"]
-    res = {"n": 0, "valid": 0, "best": {}, "rows": [], "two": len(desc["einsums"]) == 2}
+    res = {"n": 0, "valid": 0, "best": {}, "strict": {}, "rows": [], "two": len(desc["einsums"]) == 2}
     for r in replies:
         if "err" in r:
             raise RuntimeError(f"driver scan: {r}")
@@ -424,6 +453,9 @@ def merge_scans(desc, replies):
                 b = r["best"][k]
                 if b is not None:
                     res["best"][k] = (Fraction(b["v"], den), ("pair", b["a"], b["b"]))
+                b = r["bestStrict"][k]
+                if b is not None:
+                    res["strict"][k] = (Fraction(b["v"], den), ("pair", b["a"], b["b"]))
         else:
             res["n"] += r["n"]
             res["valid"] += r["valid"]
@@ -435,6 +467,11 @@ def merge_scans(desc, replies):
                     v = qf(b["v"])
                     if k not in res["best"] or v < res["best"][k][0]:
                         res["best"][k] = (v, ("single", b["m"]))
+                b = r["bestStrict"][k]
+                if b is not None:
+                    v = qf(b["v"])
+                    if k not in res["strict"] or v < res["strict"][k][0]:
+                        res["strict"][k] = (v, ("single", b["m"]))
         res["rows"] += r["front"]
     return res
 
@@ -530,3 +567,11 @@ def mapping_features(desc, ms):
                 block = []
             prev = n
     return sorted(feats) or ["template-like"]
+
+
+KNOWN_FULL = "exactly-full-mapping-missed:float32-capacity-check"
+
+
+def exactly_full(ev) -> bool:
+    """Does the real evaluate_mapping report some memory filled exactly (usage = 1)?"""
+    return any(u is not None and abs(u - 1.0) <= 1e-9 for u in (ev.get("usage") or {}).values())
